@@ -365,7 +365,16 @@ func (r *UnitRun) evalBuiltin(st *State, name string, e *ast.CallExpr) Val {
 			es := w.sortOf(u.Elem())
 			o := r.newObj("make", es, OwnFresh)
 			zt := r.toTerm(st, r.zero(st, u.Elem()), u.Elem())
-			st.arrs[o] = fmt.Sprintf("((as const (Array Int %s)) %s)", es, zt)
+			if es == "Int" || es == "Real" || es == "Bool" {
+				st.arrs[o] = fmt.Sprintf("((as const (Array Int %s)) %s)", es, zt)
+			} else {
+				// cvc5 accepts only values in constant arrays: use a fresh array whose entries are all the zero value
+				a := r.fresh("zeroed", fmt.Sprintf("(Array Int %s)", es))
+				qcount++
+				k := fmt.Sprintf("k!q%d", qcount)
+				st.assume(fmt.Sprintf("(forall ((%s Int)) (! (= (select %s %s) %s) :pattern ((select %s %s))))", k, a, k, zt, a, k))
+				st.arrs[o] = a
+			}
 			return Val{K: KSlice, S: &SliceVal{Obj: o, Off: "0", Len: n.T, Cap: capT, Elem: u.Elem(), ESrt: es}, Go: t}
 		case *types.Map:
 			z := r.zero(st, t)
@@ -387,6 +396,22 @@ func (r *UnitRun) evalBuiltin(st *State, name string, e *ast.CallExpr) Val {
 		n := r.fresh("ncopy", "Int")
 		st.assume(eq(n, ite(sx("<", dst.S.Len, src.S.Len), dst.S.Len, src.S.Len)))
 		site := fmt.Sprintf("copy%d", r.callOrd[e])
+		if dst.S.Obj == nil && dst.S.From != nil && st.fresh(dst.S.From.ref) {
+			// copy into a slice held in a field of an object allocated in this call: update the field's value
+			r.obligeStatic(st, "frame", site, true, e, "copy targets ."+dst.S.From.fi.name+" of an object allocated in this call")
+			old := dst.S.Arr
+			na := r.fresh("copied", fmt.Sprintf("(Array Int %s)", dst.S.ESrt))
+			qcount++
+			k := fmt.Sprintf("k!q%d", qcount)
+			srcArr := r.sliceArr(st, src.S)
+			inside := and(sx("<=", dst.S.Off, k), sx("<", k, add(dst.S.Off, n)))
+			st.assume(fmt.Sprintf("(forall ((%s Int)) (! (= (select %s %s) (ite %s (select %s (+ %s (- %s %s))) (select %s %s))) :pattern ((select %s %s))))",
+				k, na, k, inside, srcArr, src.S.Off, k, dst.S.Off, old, k, na, k))
+			nv := *dst.S
+			nv.Arr, nv.From = na, nil
+			dst.S.From.store(st, Val{K: KSlice, S: &nv, Go: dst.Go})
+			return intV(n)
+		}
 		if dst.S.Obj == nil {
 			r.obligeStatic(st, "frame", site, false, e, "copy into a slice that is not a locally owned object")
 			return intV(n)
@@ -546,6 +571,21 @@ func (r *UnitRun) applyContractSelf(st *State, callee *Unit, recv *Val, args []V
 		}
 		r.oblige(st, "def", fmt.Sprintf("%s.%d", site, i), goal, e, "result of "+callee.Name+" is defined (finite): "+c.Text, c.Tags)
 	}
+	// tensor-typed arguments must be complete tensors unless the callee declares the parameter "unpublished"
+	chk := func(name string, v Val) {
+		if v.K != KRef || v.Sort != "T" {
+			return
+		}
+		if _, half := st.ghost["alloc:"+v.T]; half && !callee.Unpublished[name] {
+			r.obligeStatic(st, "published", fmt.Sprintf("%s.%s", site, name), false, e, "a tensor allocated in this call and not yet returned is passed as "+name+" to "+callee.Name+", which assumes a complete tensor")
+		}
+	}
+	if recv != nil && recvName != "" {
+		chk(recvName, *recv)
+	}
+	for i, p := range params {
+		chk(p.Name, args[i])
+	}
 	// ownership transfer
 	for i, p := range params {
 		if callee.Takes[p.Name] && args[i].K == KSlice {
@@ -587,6 +627,10 @@ func (r *UnitRun) applyContractSelf(st *State, callee *Unit, recv *Val, args []V
 			r.declBirth(v.Sort)
 			st.assume(eq(sx("birth_"+sanitize(v.Sort), v.T), intLit(int64(r.allocN))))
 			st.markFresh(v.T)
+		}
+		if v.K == KRef && v.Sort == "T" {
+			// a function only returns complete tensors (its own publish step)
+			st.assume(implies(not(eq(v.T, "nilT")), sx("published", v.T)))
 		}
 		bound[rp.Name] = v
 		bound[fmt.Sprintf("res%d", len(outs))] = v
